@@ -19,6 +19,7 @@ RULE = ("one seeded small tree (or single file) read through one of the eight re
 
 CODE = {"owner": 16, "group": 17, "symlink": 20}
 FOREIGN_U, FOREIGN_G = 4343, 4444
+NOID = 2**32 - 1
 EPS = ["readFile", "readFileCb", "readDirs", "readDirsCb", "readDirsHistory", "readDirsHistoryCb", "readConfig", "readConfigCb"]
 
 
@@ -34,8 +35,9 @@ def gen_world(rng, i, tier):
     else:
         w["ep"] = rng.pick(["readConfig", "readConfigCb"])
     w["rules"] = rng.pick([["owner"], ["group"], ["symlink"], ["owner", "group"], ["owner", "symlink"], ["group", "symlink"], ["owner", "group", "symlink"], []])
-    w["req_uid"] = rng.pick([0, 4242])
-    w["req_gid"] = rng.pick([0, 4141])
+    # (uid_t)-1 / (gid_t)-1 are ids like any other for the requirement: no file has them, so every file offends
+    w["req_uid"] = rng.pick([0, 4242, 0, 4242, 0, 4242, NOID])
+    w["req_gid"] = rng.pick([0, 4141, 0, 4141, 0, 4141, NOID])
     w["setter_history"] = rng.pick(["plain", "set-reset-set", "other-first", "allow-symlinks-explicit", "forbid-then-allow", "allow-first"])
     w["attr_seed"] = rng.getrandbits(32)
     # additionally a permission-mask requirement that every file and directory of the tree satisfies
@@ -204,7 +206,12 @@ def check(world, plans, results):
         # which consulted file offends an ACTIVE rule first?
         first = None
         for p in cons:
-            active = [r for r in off.get(p, []) if r in world["rules"]]
+            o = list(off.get(p, []))
+            if world["req_uid"] == NOID and "owner" not in o:
+                o.append("owner")
+            if world["req_gid"] == NOID and "group" not in o:
+                o.append("group")
+            active = [r for r in o if r in world["rules"]]
             if active:
                 first = (p, active)
                 break
@@ -244,6 +251,8 @@ def check(world, plans, results):
         v.probe("satisfied_permission_rule_also_in_force")
     if world.get("worker_thread"):
         v.probe("setters_on_main_thread_read_on_worker_thread")
+    if (world["req_uid"] == NOID and "owner" in world["rules"]) or (world["req_gid"] == NOID and "group" in world["rules"]):
+        v.probe("required_id_is_minus_one")
     return v
 
 
